@@ -41,6 +41,10 @@ func C02(c *core.Ctx) {
 	if c.HasViolation() || c.Expired() {
 		return
 	}
+	c02late(c)
+	if c.HasViolation() || c.Expired() {
+		return
+	}
 	spec := &HistSpec{Name: "receiver-qos", Ops: ops, Depth: d1, Dedup: true, Comps: comps, Prefix: prefix, ExtraKey: wrapKey}
 	spec.Search(c)
 	if c.HasViolation() || c.Expired() {
@@ -244,5 +248,85 @@ func c02pinned(c *core.Ctx) {
 	}
 	if v != "" {
 		c.Violate(key+violClass(v), core.Replay{Scenario: name, Message: v, Log: res.Log, Crash: res.Crash})
+	}
+}
+
+// c02late: "handed on at PUBREL time" also means: to whoever is subscribed at
+// PUBREL time.  A QoS 2 PUBLISH arrives on a topic nobody is subscribed to
+// (with and without a repeated PUBLISH), then a subscription, then the PUBREL:
+// the new subscriber gets the message, once; a repeated PUBREL hands on nothing.
+func c02late(c *core.Ctx) {
+	for _, withDup := range []bool{false, true} {
+		name := fmt.Sprintf("pinned: QoS 2 PUBLISH on a topic without subscriber (repeated: %v), SUBSCRIBE, PUBREL", withDup)
+		if c.Replay != nil && c.Replay.Scenario != name {
+			continue
+		}
+		if c.Replay == nil && c.NShards > 1 && c.Shard != 0 {
+			return
+		}
+		withDup := withDup
+		var got []string
+		body := func() {
+			got = nil
+			t := newTD()
+			p := t.connect("P", 0, 65535, false)
+			s := t.connect("S", 0, 65535, false)
+			if vsched.Failed() {
+				return
+			}
+			step := func(pk *refcodec.Packet, want byte) bool {
+				p.rc.Send(pk)
+				t.settleExcept()
+				ans := p.rc.Take()
+				if len(ans) != 1 || ans[0].Type != want || ans[0].ID != pk.ID {
+					vsched.Failf("%s was answered by %s", pk, Describe(ans))
+					return false
+				}
+				return true
+			}
+			pub := &refcodec.Packet{Type: refcodec.PUBLISH, Topic: []byte("u"), QoS: 2, ID: 3, Payload: []byte("late-subscriber")}
+			if !step(pub, refcodec.PUBREC) {
+				return
+			}
+			if withDup {
+				d := *pub
+				d.Dup = true
+				if !step(&d, refcodec.PUBREC) {
+					return
+				}
+			}
+			t.subscribe("S", "u", 2)
+			if !step(&refcodec.Packet{Type: refcodec.PUBREL, ID: 3}, refcodec.PUBCOMP) || !step(&refcodec.Packet{Type: refcodec.PUBREL, ID: 3}, refcodec.PUBCOMP) {
+				return
+			}
+			for _, m := range publishesOn(s.rc.Take(), "u") {
+				got = append(got, string(m.Payload))
+			}
+			t.badStream()
+		}
+		res := explore.RunDefault(body)
+		c.Rep.Executions++
+		c.Rep.Evaluations++
+		c.Rep.States++
+		c.Rep.Transitions += int64(len(res.Points))
+		if c.Replay != nil {
+			fmt.Println("replay:", name, "\n  handed on:", got, res.Failures, firstLine(res.Crash))
+			c.Rep.Scenarios++
+			return
+		}
+		v := ""
+		switch {
+		case res.Status == vsched.StCrash:
+			v = "a library goroutine panicked: " + firstLine(res.Crash)
+		case len(res.Failures) > 0:
+			v = res.Failures[0]
+		case strings.Join(got, ",") != "late-subscriber":
+			v = fmt.Sprintf("the subscription was acknowledged before the PUBREL; at PUBREL time the subscriber was handed %v, expected the message once", got)
+		}
+		if v != "" {
+			if c.Violate("C02 pinned-late :: "+violClass(v), core.Replay{Scenario: name, Message: v, Log: res.Log, Crash: res.Crash}) {
+				return
+			}
+		}
 	}
 }
